@@ -47,11 +47,16 @@ def sliceResp (s : Srv) (off szx : Nat) (b1 : Option BlockOpt) : Resp :=
     etag := s.etag,
     payload := (s.rep.drop off).take (blockSize szx) }
 
+/-- the size exponent of the first block of the representation: the server's choice, capped by
+the size the request asked for in its Block2 option (§2.4), if it carries one -/
+def respondSzx (reqB2 : Option BlockOpt) (c : Choice) : Nat :=
+  min c.szx (match reqB2 with | some b => min b.szx 6 | none => 6)
+
 /-- the request body is complete: record it and answer with (the first block of) `rep` -/
 def Srv.respond (s : Srv) (body : Bytes) (ack : Option BlockOpt) (reqB2 : Option BlockOpt)
     (c : Choice) : Srv × Resp :=
   let s' := { s with buf := [], recorded := some body }
-  let szx := min c.szx (match reqB2 with | some b => min b.szx 6 | none => 6)
+  let szx := respondSzx reqB2 c
   if s.rep.length > blockSize szx ∨ c.explicitB2 then (s', sliceResp s' 0 szx ack)
   else (s', { code := s.code, block1 := ack, block2 := none, etag := s.etag, payload := s.rep })
 
